@@ -290,7 +290,7 @@ func describe(c Case, res *kit.Result) {
 			res.Label("list:start-judged")
 		}
 		if freshAfterList {
-			res.Label("list:item-after-fresh-reopen")
+			res.Label("list:item-after-reopen")
 		}
 		seenListBeforeFresh = true
 	}
@@ -317,7 +317,7 @@ func describe(c Case, res *kit.Result) {
 			adds++
 			seenNoteAdd = true
 			if freshAfterNote {
-				res.Label("note:add-after-fresh-reopen")
+				res.Label("note:add-after-reopen")
 			}
 		case "rmfn", "rmen":
 			sig += ":" + op.IDKind
@@ -382,12 +382,12 @@ func describe(c Case, res *kit.Result) {
 			if op.Fresh {
 				res.Label("reopen:fresh-process")
 				sig += ":fresh"
-				if seenListBeforeFresh {
-					freshAfterList = true
-				}
-				if seenNoteAdd {
-					freshAfterNote = true
-				}
+			}
+			if seenListBeforeFresh {
+				freshAfterList = true
+			}
+			if seenNoteAdd {
+				freshAfterNote = true
 			}
 			if tocSeen {
 				res.Label("toc:reopen-with-toc")
@@ -426,7 +426,7 @@ func describe(c Case, res *kit.Result) {
 func TestC15(t *testing.T) {
 	kit.Main(t, kit.Spec[Case]{
 		ID: "C15", Level: "exploration",
-		Rule: "a case is one document history of a drawn kind (lists | notes | toc | mixed): lists = 1-10 (thorough 1-20) calls of AddListItem/AddBulletList/AddNumberedList/CreateMultiLevelList/AddListItem(nil) over every ListType, every BulletType, levels -1..10, starts 0..9 (every fourth item repeats the type/symbol/level of an earlier one with a new start); notes = AddFootnote/AddEndnote/AddFootnoteToRun/RemoveFootnote/RemoveEndnote with live, already-removed and unknown ids and XML-expressible texts; toc = headings (levels 1-9, texts incl. empty/blank), paragraphs, tables, an optional foreign paragraph-style TOC, GenerateTOC/AutoGenerateTOC (MaxLevel 1-9 or nil config), UpdateTOC x1-3, ListHeadings/GetHeadingCount; every kind with reopen (ToBytes->OpenFromMemory, half of them with the process-wide registries reset = another process). Registries are reset before each case. non-trivial = lists: >=3 items of >=2 type/level/start combinations; notes: >=2 adds and >=1 successful removal; toc: >=3 headings of >=2 levels, one deeper than MaxLevel, and an update/regeneration after a heading was added to a document that already had a TOC. distinct = distinct sequence of (op kind, list type+level | id kind | heading level | MaxLevel | repetitions | fresh)",
+		Rule: "a case is one document history of a drawn kind (lists | notes | toc | mixed): lists = 1-10 (thorough 1-20) calls of AddListItem/AddBulletList/AddNumberedList/CreateMultiLevelList/AddListItem(nil) over every ListType, every BulletType, levels -1..10, starts 0..9 (every fourth item repeats the type/symbol/level of an earlier one with a new start); notes = AddFootnote/AddEndnote/AddFootnoteToRun/RemoveFootnote/RemoveEndnote with live, already-removed and unknown ids and XML-expressible texts; toc = headings (levels 1-9, texts incl. empty/blank), paragraphs, tables, an optional foreign paragraph-style TOC, GenerateTOC/AutoGenerateTOC (MaxLevel 1-9 or nil config), UpdateTOC x1-3, ListHeadings/GetHeadingCount; every kind with reopen (ToBytes->OpenFromMemory; the registries are per-document, an opened document starts with empty ones). non-trivial = lists: >=3 items of >=2 type/level/start combinations; notes: >=2 adds and >=1 successful removal; toc: >=3 headings of >=2 levels, one deeper than MaxLevel, and an update/regeneration after a heading was added to a document that already had a TOC. distinct = distinct sequence of (op kind, list type+level | id kind | heading level | MaxLevel | repetitions | fresh)",
 		Gen:  genCase, Run: run, Findings: findings, Fixed: fixedCases,
 		MustSee: map[string]float64{"kind:lists": 0.15, "kind:notes": 0.12, "kind:toc": 0.15, "kind:mixed": 0.03, "reopen": 0.2, "reopen:fresh-process": 0.08,
 			"list:level-outside-0-8": 0.07, "list:same-definition-key-other-start": 0.05, "list:start-judged": 0.15, "rm:live": 0.05, "rm:unknown": 0.08, "rm:removed": 0.004,
